@@ -117,10 +117,13 @@ def rand_map_tab(rng, fmt, channels, n=7, special=False):
         else: jac.append(Fraction(rng.randint(1, 8), rng.choice([1, 2, 4])))
     return ['tab', [], toks(fmt, [fmt.round(d) if isnum(d) else d for d in dens]), toks(fmt, [fmt.round(j) if isnum(j) else j for j in jac])]
 
-def rand_map_grid(rng, fmt, channels, dims, kappa=None):
+def rand_map_grid(rng, fmt, channels, dims, kappa=None, dyadic=False):
     grids = []
     for ch in range(channels):
-        grids.append([toks(fmt, rand_grid(rng, fmt, rng.choice([2, 4]), rng.choice(['random', 'uniform', 'peaked']))) for _ in range(dims)])
+        if dyadic:
+            grids.append([toks(fmt, rand_grid(rng, fmt, 4, 'dyadic')) for _ in range(dims)])
+        else:
+            grids.append([toks(fmt, rand_grid(rng, fmt, rng.choice([2, 4]), rng.choice(['random', 'uniform', 'peaked']))) for _ in range(dims)])
     kappa = kappa if kappa is not None else rng.choice([Fraction(1), Fraction(2), Fraction(1, 4)])
     return ['grid', fmt.rtok(kappa), grids]
 
@@ -212,9 +215,23 @@ def rand_run(rng, fmt, kind, *, calls=None, iters=None, value_classes=None, dist
     s = spec_run(kind, fmt, dims=dims, channels=channels, seed=seed, raw=raw, chk=chk, f=f, dists=dl, fills=fills, tables=tables,
                  wants=w, mp=mp, cb=cb, trace=trace, ops=ops if ops is not None else [['run', cl_calls], ['dump']],
                  acc=1 if (not dl and rng.random() < 0.2) else 0)
+    if cb is not None and cb[0] == 'builtin' and rng.random() < 0.5:
+        # the callback instantiated with the checkpoint's base class (without the engine), as the library's examples do
+        s.insert(-1, ['cbbase', 1]); classes.append('callback_on_base_class')
     return s, classes, {'kind': kind, 'dims': dims, 'channels': channels, 'calls': cl_calls}
 
 KINDS = ['plain', 'vegas', 'mc']
+
+def mpi_variant(rng, s, info, worlds=(2, 3, 5, 8)):
+    """the same specification run by the MPI driver on the thread shim: every ['run', calls] becomes ['mpi', calls, P, perm]"""
+    P = rng.choice(list(worlds)); perm = list(range(P)); rng.shuffle(perm)
+    out = []
+    for e in s:
+        if e[0] == 'ops':
+            out.append(['ops', [(['mpi', op[1], P, perm] if op[0] == 'run' else op) for op in e[1]]])
+        else:
+            out.append(e)
+    return out, ['mpi_shim', 'world_%d' % P]
 
 # ------------------------------------------------------------------------------------------------
 @prop('C16', 'exhaustive total<=T x world<=W x rank (quick: 24x9, thorough: 64x33) plus sampled values up to 2^40; '
@@ -290,6 +307,13 @@ def gen_C07(c, rng, tier):
                 us = [rng.choice(us_all) if rng.random() < 0.7 else rand_unit(rng, fmt) for _ in range(dims)]
                 c.add(t, 'icdf', [bins, dims, toks(fmt, xs), toks(fmt, us)],
                       classes=['icdf'] + (['u_is_1'] if Fraction(1) in us else []) + (['u_is_0'] if Fraction(0) in us else []))
+        # many dimensions / many bins / narrow bins: the weight is the product of bins x width over the dimensions
+        for _ in range(scale(tier, 12, 80)):
+            bins = rng.choice([3, 5, 50, 128]); dims = rng.choice([4, 9, 16, 24])
+            xs = []
+            for d in range(dims): xs += rand_grid(rng, fmt, bins, rng.choice(['uniform', 'tiny', 'peaked', 'random']))
+            us = [rand_unit(rng, fmt) if rng.random() < 0.7 else Fraction(0) for _ in range(dims)]
+            c.add(t, 'icdf', [bins, dims, toks(fmt, xs), toks(fmt, us)], classes=['icdf_many_dims'])
 
 @prop('C08', 'weight vectors (normalised or not, with zeros) x adjustment data (all-zero, single non-zero, random, huge/tiny) x beta in (0,1] x minimum '
       'weight in [0,1/n); 3 types; non-trivial = a zero weight, a zero datum or an active floor', COMMON_ASSUMPTIONS +
@@ -322,6 +346,8 @@ def rand_results(rng, fmt, m, decades=6):
         # (value, error) -> (sum, sumsq) exactly, then rounded
         sm = fmt.round(calls * e); ss = fmt.round(calls * (e * e + (calls - 1) * s * s))
         nz = rng.choice([calls, calls, calls // 2, 0]); fin = nz - (1 if nz and rng.random() < 0.1 else 0)
+        if nz and rng.random() < 0.1:
+            fin = 0; sm = Fraction(0); ss = Fraction(0)       # only non-finite evaluations: carries no information
         rs.append([calls, nz, fin, fmt.tok(sm), fmt.tok(ss)])
     return rs
 
@@ -346,6 +372,15 @@ def gen_C13(c, rng, tier):
             if rs:
                 r = rs[0]
                 c.add(t, 'create', [r[0], r[1], r[2], fmt.rtok(Fraction(rng.randint(-99, 99), 7)), fmt.rtok(Fraction(rng.randint(1, 99), 13))], classes=['create'])
+        # results carrying 1-d and 2-d distributions, produced by real runs, combined with both rules
+        for kind in KINDS:
+            for _ in range(scale(tier, 5, 40)):
+                dl = rand_dists(rng, fmt, n=rng.choice([1, 2]), two_d=(rng.random() < 0.6))
+                iters = rng.choice([1, 2, 3, 4])
+                s, cl, info = rand_run(rng, fmt, kind, dists=dl, iters=iters, calls=[4, 9, 16],
+                                       value_classes=['small_int', 'frac', 'neg', 'zero', 'nan', 'tiny', 'big'])
+                s = [e for e in s if e[0] != 'ops'] + [['ops', [['run', info['calls']], ['combine', 'wwv'], ['combine', 'weq']]]]
+                c.add(t, 'run', s, classes=cl + ['combine_with_distributions'] + (['two_d'] if any(d[1] > 1 for d in dl) else []), nontrivial=iters >= 2, info=info)
 
 @prop('C14', 'value sequences (one large then many small, alternating signs, geometric decay, random magnitudes, constant) of length 1..N '
       '(quick N<=2000, thorough N<=50000) through hep::accumulate; 3 types; the exact-oracle runs up to 10^7 values are C++-only; non-trivial = length >= 3',
@@ -364,12 +399,18 @@ def gen_C14(c, rng, tier):
       'polynomial integrands, with and without distributions, default and user grids/weights; every accessor of every result and the adjustment data '
       'compared; non-trivial = an iteration with N >= 2', COMMON_ASSUMPTIONS)
 def gen_C02(c, rng, tier):
+    PROPS['C02']['mpi'] = True
     for t in TYPES:
         fmt = FMTS[t]
         for kind in KINDS:
             for _ in range(scale(tier, 12, 120)):
                 s, cl, info = rand_run(rng, fmt, kind)
                 c.add(t, 'run', s, classes=cl, nontrivial=any(x >= 2 for x in info['calls']), info=info)
+            for _ in range(scale(tier, 3, 20)):
+                # the MPI drivers report the reduced counters and sums of the same estimator
+                s, cl, info = rand_run(rng, fmt, kind, trace=1)
+                s, cl2 = mpi_variant(rng, s, info)
+                c.add(t, 'run', s, classes=cl + cl2, nontrivial=any(x >= 2 for x in info['calls']), info=info)
 
 @prop('C06', 'paired runs (poisoned / zeroed twin) over 2-4 adaptive iterations; NaN, +inf, -inf from the integrand, from the fill value and from the weight '
       '(infinite jacobian, zero density sum); all three integrators and types; non-trivial = at least one non-finite and one finite evaluation',
@@ -420,6 +461,7 @@ def gen_C11(c, rng, tier):
       'integrands with targets 0, tiny, moderate, 1; four modes; resumed checkpoints; non-trivial = at least two requested iterations',
       COMMON_ASSUMPTIONS)
 def gen_C12(c, rng, tier):
+    PROPS['C12']['mpi'] = True
     for t in TYPES:
         fmt = FMTS[t]
         for kind in KINDS:
@@ -442,6 +484,8 @@ def gen_C12(c, rng, tier):
                     k = rng.randint(0, iters)
                     s = [e for e in s if e[0] != 'ops'] + [['ops', [['run', info['calls'][:k]], ['reload'], ['run', info['calls'][k:]], ['dump']]]]
                     cl.append('resumed')
+                elif rng.random() < 0.25:
+                    s, cl3 = mpi_variant(rng, s, info); cl += cl3
                 c.add(t, 'run', s, classes=cl + cl2, nontrivial=iters >= 2, info=info)
 
 @prop('C17', 'event logs (map-coordinates, integrand, map-densities events with channel, random numbers, coordinates, enabled channels, buffer identity) of '
@@ -461,6 +505,7 @@ def gen_C17(c, rng, tier):
       'user grids / weights (unnormalised, with zeros), all alpha / beta / minimum weights, also resumed from text; results k and k+1 and the points drawn are '
       'compared with the model; non-trivial = at least two iterations', COMMON_ASSUMPTIONS)
 def gen_C19(c, rng, tier):
+    PROPS['C19']['mpi'] = True
     for t in TYPES:
         fmt = FMTS[t]
         for kind in ['vegas', 'mc']:
@@ -471,12 +516,15 @@ def gen_C19(c, rng, tier):
                     k = rng.randint(1, iters - 1)
                     s = [e for e in s if e[0] != 'ops'] + [['ops', [['run', info['calls'][:k]], ['dump'], ['reload'], ['run', info['calls'][k:]], ['dump']]]]
                     cl.append('resumed')
+                elif rng.random() < 0.3:
+                    s, cl3 = mpi_variant(rng, s, info); cl += cl3
                 c.add(t, 'run', s, classes=cl, info=info)
 
 @prop('C20', 'the same run under the four callback modes (results, generator positions, next state compared between modes and with the model); multi-channel '
       'summaries for 1-40 channels with all-equal, all-but-one-minimal and disabled-channel weight patterns: index skeleton (channel numbers, N=, ranges) '
       'parsed from the real output and compared with the model; non-trivial = multi-channel with at least 2 channels', COMMON_ASSUMPTIONS)
 def gen_C20(c, rng, tier):
+    PROPS['C20']['mpi'] = True
     for t in TYPES:
         fmt = FMTS[t]
         for kind in KINDS:
@@ -484,6 +532,9 @@ def gen_C20(c, rng, tier):
                 target = rng.choice([Fraction(0), Fraction(1, 4)])
                 s0, cl, info = rand_run(rng, fmt, kind, iters=rng.choice([1, 2, 3]), calls=[3, 6, 12], cb=['builtin', 0, fmt.rtok(target)])
                 group = len(c.cases)
+                use_mpi = rng.random() < 0.3
+                if use_mpi:
+                    s0, cl3 = mpi_variant(rng, [e for e in s0 if e[0] != 'ops'] + [['ops', [['run', info['calls']], ['dump']]]], info); cl = cl + cl3
                 for mode in range(4):
                     s = [e if e[0] != 'cb' else ['cb', ['builtin', mode, fmt.rtok(target)]] for e in s0]
                     c.add(t, 'run', s, classes=cl + ['mode_%d' % mode], mode_group=group, info=info, nontrivial=(kind == 'mc'))
@@ -629,13 +680,15 @@ def gen_C15(c, rng, tier):
 def gen_C01(c, rng, tier):
     for t in TYPES:
         fmt = FMTS[t]
-        for _ in range(scale(tier, 20, 150)):
-            bins = rng.choice([2, 4, 8]); dims = rng.choice([1, 2, 3])
+        for _ in range(scale(tier, 30, 200)):
+            bins = rng.choice([2, 4, 8, 3, 5, 7, 50, 128]); dims = rng.choice([1, 2, 3, 6, 12, 20] if bins > 8 else [1, 2, 3, 5])
             xs = []
-            for d in range(dims): xs += rand_grid(rng, fmt, bins, rng.choice(['random', 'peaked', 'uniform']))
+            for d in range(dims): xs += rand_grid(rng, fmt, bins, rng.choice(['random', 'peaked', 'uniform', 'tiny']))
             m = rng.choice([1, 2, 4])
             us = [Fraction(2 * rng.randrange(bins * m) + 1, 2 * bins * m) for _ in range(dims)]
-            c.add(t, 'icdf', [bins, dims, toks(fmt, xs), toks(fmt, us)], classes=['icdf_lattice'])
+            us = [u if (u * 2 ** 64).denominator == 1 else fmt.round(u) for u in us]
+            c.add(t, 'icdf', [bins, dims, toks(fmt, xs), toks(fmt, us)],
+                  classes=['icdf_lattice', 'bins_%s' % ('pow2' if bins & (bins - 1) == 0 else 'other'), 'dims_%s' % ('few' if dims <= 3 else 'many')])
             n = rng.choice([1, 2, 4])
             ws = rand_weights(rng, fmt, n, normalised=True)
             dens = [fmt.round(Fraction(rng.randint(0, 9), rng.choice([1, 2, 3]))) for _ in range(n)]
@@ -647,11 +700,20 @@ def gen_C01(c, rng, tier):
                 bm = rng.choice([4, 8]) if dims == 2 else rng.choice([8, 16, 32])
                 f = rand_poly(rng, fmt, dims)
                 if kind == 'mc':
+                    # channel grids with dyadic bins and a lattice fine enough (32 per dimension) make the lattice cells of every
+                    # channel aligned with the bins of all channels: then f x weight is affine on every cell and the rule is exact
+                    aligned = rng.random() < 0.6
+                    if aligned: dims = 1 if (tier == 'quick' or rng.random() < 0.7) else 2; bm = 32; f = rand_poly(rng, fmt, dims)
                     channels = rng.choice([1, 2, 4])
                     # channel number drawn from a lattice as well: weights are multiples of 1/4 -> exact selection frequencies
                     ks = [rng.randint(0, 3) for _ in range(channels)]
                     if sum(ks) == 0: ks[0] = 1
                     ws = [Fraction(k) for k in ks]
+                    minw = Fraction(0)
+                    if channels >= 2 and rng.random() < 0.4:
+                        # a weight below the minimum weight is raised before the final normalisation: (9/10, 1/10) with
+                        # minimum 3/10 becomes (3/4, 1/4) - still multiples of 1/4, so the channel lattice stays exact
+                        ws = [Fraction(9, 10), Fraction(1, 10)] + [Fraction(0)] * (channels - 2); minw = Fraction(3, 10)
                     cm = 4
                     raws = []
                     us = [Fraction(2 * j + 1, 2 * bm) for j in range(bm)]
@@ -660,9 +722,10 @@ def gen_C01(c, rng, tier):
                         for uc in ucs:
                             raws += [raw_of(u) for u in pt] + [raw_of(uc)]
                     n = bm ** dims * cm
-                    s = spec_run('mc', fmt, dims=dims, channels=channels, raw=raws, chk=['weights', toks(fmt, ws), fmt.rtok(0), fmt.rtok(Fraction(1, 4))],
-                                 f=f, mp=rand_map_grid(rng, fmt, channels, dims), ops=[['run', [n]], ['dump']])
-                    c.add(t, 'run', s, classes=['lattice_mc', 'channels_%d' % channels], nontrivial=channels >= 2, lattice={'kind': 'mc', 'n': n})
+                    s = spec_run('mc', fmt, dims=dims, channels=channels, raw=raws, chk=['weights', [fmt.rtok(w) for w in ws], fmt.rtok(minw), fmt.rtok(Fraction(1, 4))],
+                                 f=f, mp=rand_map_grid(rng, fmt, channels, dims, dyadic=aligned), ops=[['run', [n]], ['dump']])
+                    c.add(t, 'run', s, classes=['lattice_mc', 'channels_%d' % channels] + (['minimum_weight_active'] if minw else []) + (['aligned_channel_grids'] if aligned else []),
+                          nontrivial=channels >= 2, lattice={'kind': 'mc', 'n': n, 'exact': (aligned or sum(1 for w in ws if w) == 1) and (bool(minw) or all((4 * w / sum(ws)).denominator == 1 for w in ws))})
                 else:
                     raws, n = lattice_raw(bm, dims)
                     if kind == 'vegas':
@@ -674,6 +737,19 @@ def gen_C01(c, rng, tier):
                         chk = ['plain']
                     s = spec_run(kind, fmt, dims=dims, raw=raws, chk=chk, f=f, ops=[['run', [n]], ['dump']])
                     c.add(t, 'run', s, classes=['lattice_' + kind], nontrivial=(kind == 'vegas'), lattice={'kind': kind, 'n': n})
+        # VEGAS lattice runs on grids adapted by real refinements: two adaptive iterations on pseudo-random numbers, then the lattice
+        for _ in range(scale(tier, 3, 20)):
+            dims = rng.choice([1, 2]); bm = 8 if dims == 2 else 32
+            f = rand_poly(rng, fmt, dims)
+            raws, n = lattice_raw(bm, dims)
+            bins = rng.choice([2, 4])
+            pre = [40, 40]
+            s = spec_run('vegas', fmt, dims=dims, seed=rng.getrandbits(32), chk=['default', bins, fmt.rtok(Fraction(3, 2))], f=f,
+                         ops=[['run', pre], ['dump'], ['run', [n]], ['dump']])
+            # the lattice must start where the adaptive iterations end: positions sum(pre)*dims ..
+            s = [e for e in s if e[0] != 'raw']
+            s.insert(4, ['raw', [rng.getrandbits(64) for _ in range(sum(pre) * dims)] + raws])
+            c.add(t, 'run', s, classes=['lattice_vegas_adapted'], lattice={'kind': 'vegas', 'n': n, 'result': 2})
 
 @prop('C04', 'the three MPI drivers on the thread shim for world sizes P in {1,2,3,4,5,7,8,16,33} (thorough: every P in 1..33), seeded permutations of the reduction '
       'order, calls lists with entries < P, not divisible by P and 0, polynomial and table integrands, distributions, scripted and built-in callbacks (target precision, '
